@@ -197,38 +197,58 @@ def inputs_hash(comp, seed, tier, extra=""):
     return hash_files(files)[:24] + "-%s-%s-%s%s" % (comp, tier, seed, extra)
 
 
-def run_cases(comp, case_lines, tag, profile="release", timeout=1200):
-    """Run case lines through harness and judge. Returns dict(cases, diffs[], oracle[], summary)."""
+def _run_shard(comp, lines, tag, profile, timeout):
     cases_path = os.path.join(WORK, "%s-%s.cases" % (comp, tag))
     obs_path = os.path.join(WORK, "%s-%s.obs" % (comp, tag))
     ver_path = os.path.join(WORK, "%s-%s.verdict" % (comp, tag))
     with open(cases_path, "w") as f:
-        for c in case_lines:
+        for c in lines:
             f.write(c + "\n")
+    res = {"cases": len(lines), "diffs": [], "oracle": [], "errors": []}
     rc, err = run([harness_exe(profile)], stdin_path=cases_path, stdout_path=obs_path, timeout=timeout)
-    res = {"cases": len(case_lines), "diffs": [], "oracle": [], "harness_rc": rc, "errors": []}
     if rc != 0:
-        res["errors"].append("harness exited %d (%s): %s" % (rc, "timeout" if rc == 124 else "abort", err[-500:]))
+        res["errors"].append("harness exited %d (%s): %s" % (rc, "timeout" if rc == 124 else "abort", err[-300:]))
     rc2, err2 = run("ulimit -s unlimited 2>/dev/null; exec %s" % JUDGE, shell=True,
                     stdin_path=obs_path, stdout_path=ver_path, timeout=timeout)
     if rc2 != 0:
-        res["errors"].append("judge exited %d: %s" % (rc2, err2[-500:]))
-    seen = 0
+        res["errors"].append("judge exited %d: %s" % (rc2, err2[-300:]))
+    seen = None
     with open(ver_path, encoding="utf-8", errors="replace") as f:
         for line in f:
             parts = line.rstrip("\n").split("\t")
-            if parts[0] == "DIFF":
+            if parts[0] == "DIFF" and len(parts) >= 4:
                 res["diffs"].append({"case": parts[1], "impl": parts[2][5:], "model": parts[3][6:]})
-            elif parts[0] == "ORACLE":
+            elif parts[0] == "ORACLE" and len(parts) >= 4:
                 res["oracle"].append({"oracle": parts[1], "case": parts[2], "impl": parts[3][5:]})
             elif parts[0] == "SUMMARY":
                 seen = int(parts[1].split("=")[1])
-    res["judged"] = seen
-    if seen != len(case_lines):
-        # the harness died mid-way (abort / stack overflow / timeout): the first unjudged case is the culprit
-        res["errors"].append("only %d of %d cases were observed" % (seen, len(case_lines)))
-        if seen < len(case_lines):
-            res["unfinished_case"] = case_lines[seen]
+    with open(obs_path, "rb") as f:
+        observed = sum(1 for _ in f)
+    res["judged"] = seen if seen is not None else 0
+    if observed < len(lines):
+        # the harness died mid-way (abort / stack overflow / timeout): the first unobserved case is the culprit
+        res["errors"].append("only %d of %d cases were observed by the harness" % (observed, len(lines)))
+        res["unfinished_case"] = lines[observed]
+    elif seen != len(lines):
+        res["errors"].append("judge finished %s of %d cases" % (seen, len(lines)))
+    return res
+
+
+def run_cases(comp, case_lines, tag, profile="release", timeout=900, shards=16):
+    """Run case lines through harness and judge (sharded). Returns dict(cases, diffs[], oracle[], errors[])."""
+    from concurrent.futures import ThreadPoolExecutor
+    n = max(1, min(shards, len(case_lines) // 20 or 1))
+    parts = [case_lines[i::n] for i in range(n)]
+    with ThreadPoolExecutor(max_workers=n) as ex:
+        rs = list(ex.map(lambda ip: _run_shard(comp, ip[1], "%s-s%d" % (tag, ip[0]), profile, timeout), enumerate(parts)))
+    res = {"cases": len(case_lines), "diffs": [], "oracle": [], "errors": [], "judged": 0}
+    for r in rs:
+        res["diffs"] += r["diffs"]
+        res["oracle"] += r["oracle"]
+        res["errors"] += r["errors"]
+        res["judged"] += r["judged"]
+        if "unfinished_case" in r and "unfinished_case" not in res:
+            res["unfinished_case"] = r["unfinished_case"]
     return res
 
 
